@@ -49,9 +49,42 @@ if CONFIRM:
     confirmed = (rc0 == 0 and rcb == 0 and fails == ['functions::test_to_serde_json'] and rc2 != 0)
 print('confirmed:', confirmed, [r['summary'] for r in ran])
 
-# --- run our checks against the change in /repo
+# --- run our checks against the change
+# default: in /repo itself (apply, check, undo).  SEED_ISOLATED=1: while other work uses /repo, the same checks run from
+# a copy of /verif (/tmp/seedverif) whose harness and translator point at a scratch worktree of /repo (/tmp/seedrepo)
+# that carries the change; /repo is not touched.
 results = {}
-if confirmed and CHECK:
+ISO = os.environ.get('SEED_ISOLATED') == '1'
+if confirmed and CHECK and ISO:
+    SV, SR = '/tmp/seedverif', '/tmp/seedrepo'
+    sh('mkdir -p %s && rsync -a --delete --exclude .git --exclude replays --exclude seeded /verif/ %s/' % (SV, SV))
+    if not os.path.exists(SR):
+        rc, o = sh('git -C /repo worktree add --detach %s HEAD' % SR)
+        assert rc == 0, o
+    rc, head = sh('git -C /repo rev-parse HEAD')
+    rc, o = sh('git -C %s checkout -q --detach %s && git -C %s checkout -- . && git -C %s status --porcelain' % (SR, head.strip(), SR, SR))
+    assert rc == 0 and o.strip() == '', 'seed repo dirty: ' + o
+    sh("sed -i 's|path = \"/repo\"|path = \"%s\"|' %s/harness/Cargo.toml" % (SR, SV))
+    rc, o = sh('git -C %s apply %s' % (SR, patch))
+    assert rc == 0, o
+    env = dict(os.environ); env['JB_REPO'] = SR
+    try:
+        for c in [pid] + extra:
+            t0 = time.time()
+            p = subprocess.run('cd %s && bin/check %s --tier quick 2>&1' % (SV, c), shell=True, stdout=subprocess.PIPE,
+                               stderr=subprocess.STDOUT, timeout=3600, env=env)
+            rc, o = p.returncode, p.stdout.decode('utf-8', 'replace')
+            lines = [l for l in o.split('\n') if l.startswith('VIOLATION') or l.startswith('INFRA') or l.startswith(c + ' quick')]
+            results[c] = {'rc': rc, 'lines': lines, 'wall_s': round(time.time() - t0, 1), 'isolated': True}
+            for l in lines:
+                m = re.search(r'replay=(\S+)', l)
+                if m and os.path.exists(m.group(1)):
+                    shutil.copy(m.group(1), os.path.join(dst, 'replay-%s.json' % c))
+                    break
+            print(c, rc, lines)
+    finally:
+        sh('git -C %s checkout -- .' % SR)
+elif confirmed and CHECK:
     rc, o = sh('git -C /repo status --porcelain')
     assert o.strip() == '', 'repo dirty: ' + o
     rc, o = sh('git -C /repo apply %s' % patch)
